@@ -1,5 +1,5 @@
 (** Exec/RecvCase.v — correspondence cases for derived receivers (C01-C03, C07, C09, C17). *)
-From DarlingModel Require Import Run.Recv Run.InsideProofs Run.SpecSound Exec.ErrObs Exec.ConvCase.
+From DarlingModel Require Import Run.Recv Run.InsideProofs Run.SpecSound Run.SpecCount Exec.ErrObs Exec.ConvCase.
 Local Open Scope string_scope.
 
 (** The fixed library of user callables (harness/vh-rt/src/corpus.rs has the Rust spellings). *)
@@ -82,6 +82,8 @@ Definition mistakes_of (c : caseRecv) : N :=
 (** C02: parsing fails exactly when the specification finds a mistake, and then the error has
     exactly one leaf per mistake *)
 Definition holds02 (c : caseRecv) : bool :=
+  (* [kwfb]: the receiver meets the hypotheses of Run/SpecCount.v [mistakes_count] *)
+  kwfb (interp_fn_lib (rc_consts c)) (rc_ty c) &&
   match rc_entry c with
   | EMeta =>
       match expected_of c, rc_obs c with
